@@ -134,6 +134,12 @@ func cmdCheck(args []string) int {
 	var fatal []string
 	violations := 0
 	knownHits := map[string]bool{}
+	var knownTags []string
+	for _, kf := range known.Findings {
+		if kf.Property == id && kf.Tag != "" {
+			knownTags = append(knownTags, kf.Tag)
+		}
+	}
 	nativeValidated := 0
 	replayDir := filepath.Join(*verif, "replay", id)
 	os.RemoveAll(replayDir)
@@ -211,7 +217,7 @@ func cmdCheck(args []string) int {
 				if jb.group.Solver != "" && !solverSet {
 					sv = jb.group.Solver
 				}
-				results[i] = runJob(ld.Prog, jb, sv, thorough, time.Duration(*jobDeadline)*time.Second)
+				results[i] = runJob(ld.Prog, jb, sv, thorough, time.Duration(*jobDeadline)*time.Second, knownTags)
 				if os.Getenv("GOSYM_JOBS") != "" {
 					r := results[i]
 					fmt.Fprintf(os.Stderr, "job %s%v paths=%d obl=%d viol=%d q=%d solver=%.1fs wall=%.1fs\n", jb.fn.Name(), jb.prefix, r.Paths, r.Obligations, len(r.Violations), r.Queries, r.SolverSec, r.WallSec)
@@ -281,6 +287,9 @@ func cmdCheck(args []string) int {
 			reproducedKey := map[string]bool{}
 			for vi, v := range hs.Violations {
 				dk := v.Site + "|" + v.Msg
+				if kf := matchKnown(known.Findings, id, name, v); kf != nil {
+					dk += "|known:" + kf.Tag + kf.Site // listed findings and other violations at the same assertion are replayed separately
+				}
 				distinct[dk]++
 				if distinct[dk] > 2 {
 					// more instances of an already replayed (site, message): counted if that one reproduced, not replayed again
@@ -537,7 +546,7 @@ func readJSON(p string, v interface{}) error {
 	return json.Unmarshal(b, v)
 }
 
-func runJob(prog *ssa.Program, jb job, solver string, thorough bool, deadline time.Duration) (res *interp.Result) {
+func runJob(prog *ssa.Program, jb job, solver string, thorough bool, deadline time.Duration, knownTags []string) (res *interp.Result) {
 	opts := interp.DefaultOptions()
 	opts.Deadline = time.Now().Add(deadline)
 	opts.Solver = solver
@@ -545,6 +554,7 @@ func runJob(prog *ssa.Program, jb job, solver string, thorough bool, deadline ti
 	opts.Witnesses = 3
 	opts.ForcePrefix = jb.prefix
 	opts.ForceMod = jb.mod
+	opts.KnownTags = knownTags
 	if jb.group.MaxInstr > 0 {
 		opts.MaxInstr = jb.group.MaxInstr
 	}
